@@ -1,19 +1,25 @@
 #!/bin/bash
 # tools/seedrun.sh <seeded-id> <PROP> [<PROP>...]
-# Applies /verif/seeded/<id>/patch.diff to /repo, runs the named checks (quick
-# tier unless TIER is set) with evidence and replays redirected to a scratch
-# directory, restores /repo, and prints one line per check.
+# Trial of a seeded (deliberately broken) change: a scratch clone of /repo at
+# its HEAD (default /tmp/seedrepo, override SEED_REPO) gets
+# /verif/seeded/<id>/patch.diff applied, the named checks run against that
+# clone (VSIM_REPO) at the quick tier unless TIER is set, with evidence and
+# replays redirected to a scratch directory (VSIM_OUT) so that the evidence of
+# the unchanged tree is not replaced. /repo itself is never touched.
 set -u
 id=$1; shift
 patch=/verif/seeded/$id/patch.diff
+repo=${SEED_REPO:-/tmp/seedrepo}
 out=${SEED_OUT:-/tmp/seedout}/$id
 mkdir -p "$out"
 export GOFLAGS=-mod=mod GOPROXY=off GOSUMDB=off GOTOOLCHAIN=local
-if [ -n "$(git -C /repo status --porcelain --untracked-files=no)" ]; then echo "/repo is dirty"; exit 2; fi
-git -C /repo apply "$patch" || { echo "patch does not apply"; exit 2; }
+head=$(git -C /repo rev-parse HEAD)
+if [ ! -d "$repo/.git" ]; then rm -rf "$repo"; git clone -q /repo "$repo" || exit 2; fi
+git -C "$repo" fetch -q /repo HEAD && git -C "$repo" checkout -q --detach "$head" && git -C "$repo" reset -q --hard "$head" && git -C "$repo" clean -fdq || { echo "cannot refresh $repo"; exit 2; }
+git -C "$repo" apply "$patch" || { echo "seeded=$id patch does not apply"; exit 2; }
 for p in "$@"; do
-  VSIM_OUT="$out" /verif/bin/vsim check "$p" --tier "${TIER:-quick}" > "$out/$p.log" 2>&1
+  VSIM_REPO="$repo" VSIM_OUT="$out" /verif/bin/vsim check "$p" --tier "${TIER:-quick}" > "$out/$p.log" 2>&1
   rc=$?
   echo "seeded=$id check=$p exit=$rc $(grep -m1 '^VIOLATION' "$out/$p.log") $(grep -m1 'signature:' "$out/$p.log")"
 done
-git -C /repo checkout -- .
+git -C "$repo" reset -q --hard "$head"
